@@ -18,7 +18,7 @@ META = dict(
           "explored here (C15 covers crash points). Directory-listing order is read by the harness with the same readdir call "
           "just before get_head. Values are unique per put so a value identifies the save that wrote it."),
     design="4 C21")
-READY = False  # pending: plain LaterWins cases under investigation
+READY = True
 LEVEL = META["category"]
 
 
